@@ -2,6 +2,320 @@
 
 package main
 
-import "github.com/theparanoids/ysshra/internal/zzverif/ev"
+import (
+	"bytes"
+	"encoding/json"
+	"fmt"
+	"sort"
+	"strings"
 
-func checkC03(c *ev.Ctx) { c.Cap("not implemented") }
+	"golang.org/x/crypto/ssh"
+
+	"github.com/theparanoids/ysshra/config"
+	"github.com/theparanoids/ysshra/gensign"
+	"github.com/theparanoids/ysshra/gensign/regular"
+	"github.com/theparanoids/ysshra/internal/zzverif/bfs"
+	"github.com/theparanoids/ysshra/internal/zzverif/ev"
+	"github.com/theparanoids/ysshra/internal/zzverif/fix"
+	"github.com/theparanoids/ysshra/internal/zzverif/uagent"
+)
+
+const c03Label = "paranoids.regular"
+
+// foreign / near-miss identities that a run must never remove or alter
+var c03Foreign = []struct {
+	name, comment string
+	cert          bool
+}{
+	{"plainkey", "user key", false},
+	{"foreigncert", "corp-cert", true},
+	{"nearmiss-case", "Paranoids.Regular-cert", true},
+	{"nearmiss-trunc", "paranoids.regula", true},
+	{"nearmiss-underscore", "paranoids_regular-cert", true},
+}
+
+type c03World struct {
+	e        *genv
+	runs     int
+	genOf    map[string]int // blob -> run number that provisioned it
+	foreign  map[string]string
+	thorough bool
+	c        *ev.Ctx
+}
+
+func newC03World(c *ev.Ctx, root string) bfs.World {
+	x := &c03World{genOf: map[string]int{}, foreign: map[string]string{}, thorough: c.Thorough(), c: c}
+	x.e = newEnv(envOpt{KeyDir: "pub", LogName: "alice", Validity: 43200, KeyIDs: map[string]string{"default": "slot"}, Behaviour: "honest", AgentHasKey: true})
+	var mask int
+	fmt.Sscanf(root, "%d", &mask)
+	for i, f := range c03Foreign {
+		if mask&(1<<i) == 0 {
+			continue
+		}
+		k := agentAddedKey{PrivateKey: fix.Ed(i % 2), Comment: f.comment}
+		if i == 0 {
+			k.PrivateKey = fix.EC(256)
+		}
+		if f.cert {
+			k.Certificate = fix.SSHCert(fix.Pub(fix.Ed(i%2)), "foreign "+f.name, 0, 1<<40, nil, "alice")
+		}
+		x.e.ua.Ring.Add(k)
+	}
+	for _, id := range x.e.ua.Ring.Keys {
+		x.foreign[string(id.Blob)] = id.Comment
+	}
+	return x
+}
+
+func (x *c03World) Init() []bfs.Finding { return nil }
+func (x *c03World) Close()              { x.e.close() }
+
+func (x *c03World) Key() string {
+	var s []string
+	for _, id := range x.e.ua.Ring.Keys {
+		if _, f := x.foreign[string(id.Blob)]; f {
+			s = append(s, "foreign:"+id.Comment)
+			continue
+		}
+		age := x.runs - x.genOf[string(id.Blob)]
+		pk, _ := ssh.ParsePublicKey(id.Blob)
+		_, isCert := pk.(*ssh.Certificate)
+		s = append(s, fmt.Sprintf("ra:cert=%v:age=%d:%s:life=%d", isCert, age, id.Comment, id.Lifetime))
+	}
+	sort.Strings(s)
+	return strings.Join(s, "|")
+}
+
+func (x *c03World) Enabled() []bfs.Op {
+	var ops []bfs.Op
+	for _, k := range []string{"1", "2", "3"} {
+		for _, cm := range []string{"none", "short-empty", "long"} {
+			ops = append(ops, bfs.Op{Name: "ok", Arg: k + "/" + cm, Arg2: "43200"})
+		}
+	}
+	ops = append(ops, bfs.Op{Name: "ok", Arg: "1/none", Arg2: "1"}, bfs.Op{Name: "ok", Arg: "2/short-empty", Arg2: "315360000"})
+	ops = append(ops, bfs.Op{Name: "fail-auth"}, bfs.Op{Name: "fail-generate-agent"}, bfs.Op{Name: "fail-generate-noslot"}, bfs.Op{Name: "fail-ca"},
+		bfs.Op{Name: "fail-agent-list"}, bfs.Op{Name: "fail-agent-certadd"})
+	if x.thorough {
+		ops = append(ops, bfs.Op{Name: "fail-agent-remove"}, bfs.Op{Name: "fail-ca-panic"}, bfs.Op{Name: "ok", Arg: "3/long", Arg2: "1"})
+	}
+	return ops
+}
+
+func (x *c03World) labelled() map[string]bool {
+	m := map[string]bool{}
+	for _, id := range x.e.ua.Ring.Keys {
+		if _, f := x.foreign[string(id.Blob)]; f {
+			continue
+		}
+		if strings.Contains(id.Comment, c03Label) {
+			m[string(id.Blob)] = true
+		}
+	}
+	return m
+}
+
+func (x *c03World) Apply(op bfs.Op) (fs []bfs.Finding) {
+	add := func(key, desc string) { fs = append(fs, bfs.Finding{Key: "C03:" + key, Desc: desc}) }
+	e := x.e
+	x.runs++
+	validity := uint64(43200)
+	if op.Arg2 != "" {
+		fmt.Sscanf(op.Arg2, "%d", &validity)
+	}
+	// a fresh handler per run (configuration = validity), same forwarded-agent connection
+	keyIDs := map[string]any{"default": "slot"}
+	if op.Name == "fail-generate-noslot" {
+		keyIDs = map[string]any{"rsa": "slot"}
+	}
+	js, _ := json.Marshal(map[string]any{"handlers": map[string]any{regular.HandlerName: map[string]any{"pub_key_dir": e.dir, "cert_validity_sec": validity, "key_identifiers": keyIDs}}})
+	conf := new(config.GensignConfig)
+	json.Unmarshal(js, conf)
+	h, herr := regular.NewHandler(conf, e.conn)
+	if herr != nil {
+		add("harness:handler", herr.Error())
+		return
+	}
+	e.ca.Script = map[int]string{}
+	e.ca.NCerts, e.ca.Comments = 1, nil
+	e.adv.Behaviour = "honest"
+	e.ua.Plan = map[int]string{}
+	base := len(e.ua.Log)
+	nOld := len(x.labelled())
+	switch op.Name {
+	case "ok":
+		p := strings.Split(op.Arg, "/")
+		fmt.Sscanf(p[0], "%d", &e.ca.NCerts)
+		switch p[1] {
+		case "short-empty":
+			e.ca.Comments = append([]string{""}, make([]string, 0)...)
+			for i := 1; i < e.ca.NCerts-1; i++ {
+				e.ca.Comments = append(e.ca.Comments, "c")
+			}
+		case "long":
+			for i := 0; i < e.ca.NCerts+1; i++ {
+				e.ca.Comments = append(e.ca.Comments, fmt.Sprintf("comment-%d", i))
+			}
+		}
+	case "fail-auth":
+		e.adv.Behaviour = "failure"
+	case "fail-generate-agent":
+		e.ua.Plan[base+1] = uagent.FaultFailure
+	case "fail-ca":
+		e.ca.Script[len(e.ca.Reqs)] = "err"
+	case "fail-ca-panic":
+		e.ca.Script[len(e.ca.Reqs)] = "panic"
+	case "fail-agent-list":
+		e.ua.Plan[base+2] = uagent.FaultFailure
+	case "fail-agent-remove":
+		e.ua.Plan[base+3] = uagent.FaultClose
+	case "fail-agent-certadd":
+		e.ua.Plan[base+3+nOld] = uagent.FaultFailure
+	}
+	labelledBefore := x.labelled()
+	addsBefore, caBefore := len(e.ua.Ring.AddLog), len(e.ca.Issued)
+	err, esc := e.run(defaultParams("alice"), []gensign.Handler{h})
+	if esc != "" {
+		add("panic-escaped:"+ev.PanicSite(esc), esc)
+		return
+	}
+	newAdds := e.ua.Ring.AddLog[addsBefore:]
+	for _, a := range newAdds {
+		x.genOf[string(a.Blob)] = x.runs
+	}
+	x.c.Outcome(op.Name + "/" + errType(err))
+	// foreign and near-miss identities are never removed or altered
+	for blob, comment := range x.foreign {
+		found := false
+		for _, id := range e.ua.Ring.Keys {
+			if string(id.Blob) == blob {
+				found = true
+				if id.Comment != comment {
+					add("foreign-identity-altered", fmt.Sprintf("identity with comment %q now has comment %q", comment, id.Comment))
+				}
+			}
+		}
+		if !found {
+			add("foreign-identity-removed:"+strings.ReplaceAll(comment, " ", "-"), fmt.Sprintf("the run (%s → %s) removed the identity with comment %q, which does not carry the handler's label", op.Name, errType(err), comment))
+		}
+	}
+	// every identity the RA added carries a finite lifetime not shorter than the validity
+	for _, a := range newAdds {
+		if a.Lifetime == 0 {
+			add("identity-without-lifetime", fmt.Sprintf("the RA added an identity (comment %q) without a lifetime constraint", a.Comment))
+		} else if uint64(a.Lifetime) < validity {
+			add("lifetime-shorter-than-validity", fmt.Sprintf("the RA added an identity (comment %q) with lifetime %d s, shorter than the certificate validity %d s", a.Comment, a.Lifetime, validity))
+		}
+	}
+	okExpected := op.Name == "ok"
+	if okExpected != (err == nil) {
+		add("harness:unexpected-outcome:"+op.Name, fmt.Sprintf("scripted %s but the run returned %v", op.Name, err))
+		return
+	}
+	if err == nil {
+		x.c.Nontrivial(x.Key() + op.Arg)
+		issued := e.ca.Issued[len(e.ca.Issued)-1]
+		if len(e.ca.Issued) != caBefore+1 {
+			add("harness:ca-calls", "expected exactly one CA call")
+		}
+		issuedSet := map[string]bool{}
+		for _, ct := range issued {
+			cert := ct.(*ssh.Certificate)
+			blob := cert.Marshal()
+			issuedSet[string(blob)] = true
+			if !e.ua.Ring.Has(blob) {
+				add("certificate-missing", fmt.Sprintf("after a successful run the agent does not hold one of the %d certificates the CA returned", len(issued)))
+				continue
+			}
+			data := []byte("usable credential check")
+			sig, serr := e.ua.Ring.Sign(cert, data)
+			if serr != nil {
+				add("certificate-cannot-sign", "the certificate is in the agent but cannot sign: "+serr.Error())
+			} else if verr := cert.Key.Verify(data, sig); verr != nil {
+				add("certificate-signature-invalid", "signing with the provisioned certificate does not verify under its key: "+verr.Error())
+			}
+			if !e.ua.Ring.Has(cert.Key.Marshal()) {
+				add("private-key-missing", "after a successful run the agent does not hold the new private key")
+			}
+		}
+		// at most one generation
+		for blob := range x.labelled() {
+			if !issuedSet[blob] {
+				add("older-generation-remains", fmt.Sprintf("a handler-labelled certificate of run %d is still in the agent after run %d succeeded", x.genOf[blob], x.runs))
+			}
+		}
+		if len(labelledBefore) > 0 {
+			x.c.Count("successful_runs_replacing_an_older_generation", 1)
+		}
+	} else if strings.HasPrefix(op.Name, "fail-auth") || strings.HasPrefix(op.Name, "fail-generate") || strings.HasPrefix(op.Name, "fail-ca") {
+		// failed before or during signing: previously provisioned certificates stay
+		now := x.labelled()
+		for blob := range labelledBefore {
+			if !now[blob] {
+				add("failed-run-destroys-certificates:"+op.Name, fmt.Sprintf("run %d failed (%s, before or during signing) but a previously provisioned certificate is gone", x.runs, errType(err)))
+			}
+		}
+		if len(labelledBefore) > 0 {
+			x.c.Nontrivial(x.Key() + op.Name)
+			x.c.Count("failed_runs_with_certificates_at_stake", 1)
+		}
+	}
+	_ = bytes.Equal
+	return
+}
+
+func checkC03(c *ev.Ctx) {
+	defer cleanupScratch()
+	c.Rule("E1 BFS over sequences of real gensign.Run executions against one agent: transitions = success with the CA returning 1..3 certificates x comment lists {none, shorter with empty strings, longer} and validity {1 s, 12 h, 10 y}; failure at authentication, at private-key insertion, missing key slot, CA error, agent failure at list / certificate add (thorough: remove, CA panic); roots = all 32 subsets of {plain key, foreign certificate, 3 near-miss comments}; state = canonical identity multiset (class, generation age, comment, lifetime). non-trivial = successful run, or failed run with certificates at stake; distinct by (state, transition)")
+	c.Assume("identities whose comment contains the handler name inside a longer word are don't-care", "lifetime constraints are read from the add-identity requests as parsed by x/crypto's agent server")
+	var roots []string
+	for m := 0; m < 32; m++ {
+		roots = append(roots, fmt.Sprint(m))
+	}
+	depth := 3
+	if c.Thorough() {
+		depth = 5
+	}
+	if c.ReplayCase != nil {
+		var k struct {
+			Root    string   `json:"root"`
+			History []bfs.Op `json:"history"`
+		}
+		json.Unmarshal(c.ReplayCase, &k)
+		for _, f := range bfs.Replay(func(r string) bfs.World { return newC03World(c, r) }, k.Root, k.History) {
+			c.Violation(f.Key, f.Desc, k)
+		}
+		return
+	}
+	c.Sharded(8, 8, func(shard int) {
+		var mine []string
+		for i, r := range roots {
+			if i%8 == shard {
+				mine = append(mine, r)
+			}
+		}
+		n := 0
+		res := bfs.Run(bfs.Config{
+			New: func(r string) bfs.World { return newC03World(c, r) }, Roots: mine, MaxDepth: depth, Deadline: c.Deadline,
+			OnFinding: func(root string, hist []bfs.Op, f bfs.Finding) {
+				c.Violation(f.Key, f.Desc+"\n  history [foreign mask "+root+"]: "+fmt.Sprint(hist), map[string]any{"root": root, "history": hist})
+			},
+			OnTransition: func(root string, hist []bfs.Op, d int) {
+				c.Eval()
+				n++
+				if n%701 == 3 {
+					c.Sample(map[string]any{"foreign_mask": root, "history": hist})
+				}
+			},
+		})
+		c.AddCov("states", int64(res.States))
+		c.AddCov("transitions", int64(res.Transitions))
+		c.AddCov("traces_validated_against_impl", int64(res.Transitions))
+		c.ShardInfo(map[string]any{"roots": mine, "states": res.States, "transitions": res.Transitions, "depth_completed": res.DepthCompleted, "closed_under_alphabet": res.Closed, "frontier_left": res.FrontierLeft})
+		if res.Capped != "" {
+			c.Cap(res.Capped)
+		}
+		cleanupScratch()
+	})
+	c.Set("bound", fmt.Sprintf("all run sequences of length <= %d from each of 32 initial agents", depth))
+}
